@@ -561,14 +561,33 @@ func checkDeleteInLoop(c *core.Check, rule, pkgRel string, helpers bool) {
 								c.Fail(rule, key, hc.Pos(), "cannot locate the deletion or the loop increment in the CFG")
 								return true
 							}
-							skip, _ := fl.ReachableFromAvoiding(db, di, pb, pi, func(x ast.Node) bool {
-								if d, ok := x.(*ast.IncDecStmt); ok && d.Tok == token.DEC && core.ObjOf(info, d.X) == iv {
-									return true
+							// the helper reports whether it removed something: on the false edge of a test of that
+							// result nothing was removed and no step back is due
+							var result types.Object
+							ast.Inspect(fs.Body, func(y ast.Node) bool {
+								if as, ok := y.(*ast.AssignStmt); ok && len(as.Lhs) == 1 && len(as.Rhs) == 1 && ast.Unparen(as.Rhs[0]) == ast.Expr(hc) {
+									result = core.ObjOf(info, as.Lhs[0])
 								}
-								if a, ok := x.(*ast.AssignStmt); ok && len(a.Lhs) == 1 && core.ObjOf(info, a.Lhs[0]) == iv {
-									return true
+								return true
+							})
+							skip := false
+							fl.WithEdges(func(b *cfg.Block, succ int) bool {
+								if result != nil && succ == 1 {
+									if cond := fl.CondOf(b); cond != nil && core.ObjOf(info, cond) == result {
+										return false
+									}
 								}
-								return false
+								return true
+							}, func() {
+								skip, _ = fl.ReachableFromAvoiding(db, di, pb, pi, func(x ast.Node) bool {
+									if d, ok := x.(*ast.IncDecStmt); ok && d.Tok == token.DEC && core.ObjOf(info, d.X) == iv {
+										return true
+									}
+									if a, ok := x.(*ast.AssignStmt); ok && len(a.Lhs) == 1 && core.ObjOf(info, a.Lhs[0]) == iv {
+										return true
+									}
+									return false
+								})
 							})
 							c.Decide(!skip, rule, key, hc.Pos(), "index stepped back (or loop left) after the deletion", "after "+exprStr(hc.Fun)+" removed element i of "+sliceText+" the loop increments i without stepping back: the element that moved into slot i is never examined (a second key of the same name survives)")
 						}
